@@ -123,10 +123,17 @@ RdViols(e) ==
                                              /\ (Declared(F[k].hdr).huge \/ Declared(F[k].hdr).len > e.limit)
                                              /\ \A j \in 1..(k - 1) : F[j].complete /\ ~Declared(F[j].hdr).neg /\ ~Declared(F[j].hdr).huge
                                                                       /\ Declared(F[j].hdr).len <= e.limit
+        \* C10: an over-limit frame is refused after its header: at most one read buffer (4096) beyond the frames before it
+        overLimitAt == IF \E k \in 1..Len(F) : F[k].complete /\ e.limit > 0 /\ (Declared(F[k].hdr).huge \/ Declared(F[k].hdr).len > e.limit)
+                       THEN LET k == CHOOSE k \in 1..Len(F) : F[k].complete /\ (Declared(F[k].hdr).huge \/ Declared(F[k].hdr).len > e.limit)
+                                                              /\ \A j \in 1..(k - 1) : ~(F[j].complete /\ (Declared(F[j].hdr).huge \/ Declared(F[j].hdr).len > e.limit))
+                            IN k ELSE 0
         cl2 == cl \o (IF e.panic # "" THEN <<"panic">> ELSE <<>>)
+                  \o (IF overLimitAt = 1 /\ limHit /\ e.consumed > 9 + 8192 THEN <<"oversized_frame_drained">> ELSE <<>>)
                   \o (IF needClose /\ ~e.closed THEN <<"limit_without_session_close">> ELSE <<>>)
     IN [k \in 1..Len(cl2) |-> [clause |-> cl2[k], wellformed |-> wf, pattern |-> e.pattern, frag |-> e.frag, limit |-> e.limit,
-                               prop |-> IF cl2[k] \in {"wellformed_frame_rejected", "wrong_kind", "payload_corrupt"} /\ wf THEN "C14" ELSE "C15"]]
+                               prop |-> IF cl2[k] = "oversized_frame_drained" THEN "C10"
+                                        ELSE IF cl2[k] \in {"wellformed_frame_rejected", "wrong_kind", "payload_corrupt"} /\ wf THEN "C14" ELSE "C15"]]
 
 \* ---------------------------------------------------------------- the fold
 Tag(vs) == [k \in 1..Len(vs) |-> [scn |-> scn, line |-> l] @@ vs[k]]
